@@ -31,6 +31,11 @@ CLAIMS = {
          "every word-like literal tried before `identifier` is guarded by !identifier_rest or mandatory whitespace (R4); reserved words are prefix-free in order (R5); word/symbol spellings share evaluator arms (R6); "
          "no atomic-by-cascade rule admits newlines but not spaces (R7). Layout insensitivity in general is not decided.",
          BASE_NOTE, "DESIGN.md §4 C10"),
+ "C18": ("who-evaluates + MIR dominance of the depth guard + per-call-site classification of the depth argument (own depth + constant) over the call graph; thorough: machine-frame stack budget from -Z emit-stack-sizes and the object-file call graph",
+         "Exhaustive static decision of: a LambdaDef body is evaluated only in FunctionDef::call, where the `call_depth > 1000` test dominates the body evaluation and the built-in dispatch and its over-limit edge reaches no evaluator call (R1); "
+         "every one of the ~50 call sites between depth-carrying functions passes its own call_depth + k with k >= 0, FunctionDef::call passes k >= 1 to the body, and only drivers pass constants, so every cycle through a Blots call strictly increases the counter (R2); "
+         "the evaluator runs on a stack of at least 8 MiB (no smaller explicit thread stack) (R3s). The stack budget itself (frames x depth) is evaluated in the thorough tier.",
+         BASE_NOTE + " R3 uses nightly release frames, not the pinned 1.89 ones.", "DESIGN.md §4 C18"),
  "C17": ("exact-rational lint of the literal unit table + MIR dominance / who-may-call on units::convert",
          "Exhaustive static decision, for every row of the literal unit catalogue, of: identifier uniqueness (R1), metric/binary prefix "
          "ratios in exact rationals (R2/R2b), positive literal coefficients (R3), temperature maps composing to the identity symbolically (R4), "
